@@ -93,7 +93,7 @@ def reference_terms(o, sp, ya_shift=False):
                                  n_final=rows[-1]['n_post'], con=con)
 
 
-def check_state(part, o, sp, det, full):
+def check_state(part, o, sp, det, full, cond_extra=''):
     rows, tr, shift, aux = reference_terms(o, sp)
     K = aux['K']
     has_mirror = any(r['mirror'] for r in rows)
@@ -114,7 +114,7 @@ def check_state(part, o, sp, det, full):
         part.count('cmp:' + name)
         if got.shape != ref.shape or np.max(np.abs(got[ok] - ref[ok])) > TOL * sc:
             j = int(np.argmax(np.abs(np.where(ok, got - ref, 0))))
-            part.violation(PID, f'surface-term-{name}', 'Aberrations.third_order', cm, dict(det, surface=j + 1),
+            part.violation(PID, f'surface-term-{name}', 'Aberrations.third_order', cm + cond_extra, dict(det, surface=j + 1),
                            observed=got, expected=ref, tol=TOL)
     for name in ('TAchC', 'TchC'):
         ref, got, alt = tr[name], lib[name], shift[name]
@@ -168,7 +168,7 @@ def run_unit(unit):
     waves = ((0.4861, False), (0.5876, True), (0.6563, False))
     water = S('plane', mat=['ideal', 1.33, 0.0])
     for obj, ft, mf, img in ((LZ.INF, 'angle', p['ang'], None), (p['od'][0], 'object_height', p['h'], None),
-                             (LZ.INF, 'angle', 1e-9, water), (p['od'][1], 'object_height', 1e-9, water)):
+                             (LZ.INF, 'angle', 1e-9, water), (p['od'][1], 'object_height', 1e-9, water), (LZ.INF, 'angle', 0.0, None)):
         # (3rd/4th: image space immersed in water and a vanishingly small field - the spherical, Petzval and colour
         #  terms do not depend on the field)
         # aperture that fixes the marginal ray whatever the stop position (EPD at infinity, object NA for a finite object)
@@ -184,7 +184,8 @@ def run_unit(unit):
             if abcd.pupil_degenerate(rows):
                 part.count('skipped-telecentric-pupil')
                 continue
-            res = check_state(part, o, sp, det, full=(stop == 0))
+            # (5th configuration: the only field is the axial one - the Lagrange invariant is exactly zero)
+            res = check_state(part, o, sp, det, full=(stop == 0), cond_extra=(',axial-field-only' if mf == 0.0 else ''))
             if res:
                 S14.append((stop, res[0]['S'][0], res[0]['S'][3], res[1]))
             if res and stop in (0, len(base) - 1):
@@ -195,11 +196,11 @@ def run_unit(unit):
                 sp_h['ap'] = [apx[0], 0.6 * apx[1]]
                 o.set_aperture(apx[0], 0.6 * apx[1])
                 part.transitions += 1
-                check_state(part, o, sp_h, dict(det, after='set_aperture x0.6'), full=False)
+                check_state(part, o, sp_h, dict(det, after='set_aperture x0.6'), full=False, cond_extra=(',axial-field-only' if mf == 0.0 else ''))
                 sp_h['fields'] = list(sp_h['fields']) + [[1.3 * mf, 0.0, 0.0]]
                 o.add_field(y=1.3 * mf)
                 part.transitions += 1
-                check_state(part, o, sp_h, dict(det, after='set_aperture x0.6, add_field x1.3'), full=False)
+                check_state(part, o, sp_h, dict(det, after='set_aperture x0.6, add_field x1.3'), full=False, cond_extra=(',axial-field-only' if mf == 0.0 else ''))
         # S_I and S_IV do not depend on where the stop is
         if len(S14) > 1:
             part.count('cmp:stop-shift')
